@@ -1,6 +1,8 @@
 package implements
 
 import (
+	"go/types"
+
 	"github.com/a14e/gogreement/src/annotations"
 )
 
@@ -185,6 +187,12 @@ func signaturesMatch(typeMethod TypeMethod, ifaceMethod InterfaceMethod) bool {
 
 // typesMatch checks if two types are the same
 func typesMatch(t1 *MethodType, t2 *InterfaceType) bool {
+	if t1.GoType != nil && t2.GoType != nil {
+		// Loaded from the type checker: use Go's own type identity
+		// (pointer depth, aliases, func parameter names, ...)
+		return t1.IsVariadic == t2.IsVariadic && types.Identical(t1.GoType, t2.GoType)
+	}
+
 	return t1.TypeName == t2.TypeName &&
 		t1.TypePackage == t2.TypePackage &&
 		t1.IsPointer == t2.IsPointer &&
